@@ -13,7 +13,7 @@ CONSTANTS Greetings,      \* subset of {"valid", "invalid", "cut_viable", "cut_b
 
 VARIABLES w, pc, g, res
 vars == <<w, pc, g, res>>
-NoPic == [embedded |-> -1, file |-> -1, hasMime |-> FALSE, mime |-> <<>>, limit |-> 1, embedded_ack |-> 0, file_ack |-> 0, vary |-> FALSE]
+NoPic == [embedded |-> -1, file |-> -1, hasMime |-> FALSE, mime |-> <<>>, limit |-> 1, embedded_ack |-> 0, file_ack |-> 0, vary |-> FALSE, ackp |-> FALSE]
 PW == <<112>>
 GreetLine(k) == Line("greet", <<>>, <<k>>, 0, 0)
 Init == \E gk \in Greetings, p \in Passwords, a \in Auths :
